@@ -14,30 +14,35 @@ def build(u):
     u.preamble('bytes.rs')
     u.preamble('rbytes.rs')
     add_classread(u, [], with_pos=False)  # the trait is verified (and counted) in unit rskip
+    add_branch_helpers(u, None, canary=True)
+
+
+def add_branch_helpers(u, props, canary=False):
+    kw = {} if props is None else dict(props=props)
     u.item('duke/src/tree/method/code.rs', 'struct', 'LvIndex', derives=['Copy', 'Clone', 'PartialEq', 'Eq'])
     u.open_block('pub trait CodeReadHelper: ClassRead {')
-    u.fn(R, 'CodeReadHelper::read_u8_as_local_variable', container=TR, ret='res',
+    u.fn(R, 'CodeReadHelper::read_u8_as_local_variable', container=TR, ret='res', **kw,
          ensures=[C('C01.lv.u8', f'res matches Ok(l) ==> l.index as int == {D0}[{P0}] as int && final(self).pos() == {P0} + 1'),
                   C('C01.lv.u8.ok-iff', f'res.is_ok() <==> (0 <= {P0} && {P0} + 1 <= {D0}.len())')])
-    u.fn(R, 'CodeReadHelper::read_u16_as_local_variable', container=TR, ret='res',
+    u.fn(R, 'CodeReadHelper::read_u16_as_local_variable', container=TR, ret='res', **kw,
          ensures=[C('C01.lv.u16', f'res matches Ok(l) ==> l.index as int == val16({D0}.subrange({P0}, {P0} + 2)) && final(self).pos() == {P0} + 2'),
                   C('C01.lv.u16.ok-iff', f'res.is_ok() <==> (0 <= {P0} && {P0} + 2 <= {D0}.len())')])
     br16 = f'sval16({D0}.subrange({P0}, {P0} + 2))'
     br32 = f'sval32({D0}.subrange({P0}, {P0} + 4))'
-    u.fn(R, 'CodeReadHelper::read_i16_as_branch_target_label', container=TR, ret='res',
+    u.fn(R, 'CodeReadHelper::read_i16_as_branch_target_label', container=TR, ret='res', **kw,
          ensures=[C('C01.branch16.target-exact', f'res matches Ok(t) ==> t as int == opcode_pos as int + {br16}'),
                   C('C01.branch16.ok-iff-in-u16', f'res.is_ok() <==> (0 <= {P0} && {P0} + 2 <= {D0}.len() && 0 <= opcode_pos as int + {br16} <= 65535)'),
                   C('C01.branch16.advances-2', f'res.is_ok() ==> final(self).pos() == {P0} + 2'),
                   C('C01.branch16.frame', f'final(self).data() == {D0}')])
-    u.fn(R, 'CodeReadHelper::read_i32_as_branch_target_label', container=TR, ret='res',
-         rewrites=[(r'target\.try_into\(\)\?', 'u16::try_from(target).ok().ok_or(VErr)?')],
+    u.fn(R, 'CodeReadHelper::read_i32_as_branch_target_label', container=TR, ret='res', **kw,
+         opt_rewrites=[(r'\b(\w+)\.try_into\(\)\?', r'u16::try_from(\1).ok().ok_or(VErr)?')],
          ensures=[C('C01.branch32.target-exact', f'res matches Ok(t) ==> t as int == opcode_pos as int + {br32}'),
                   C('C01.branch32.ok-iff-in-u16', f'res.is_ok() <==> (0 <= {P0} && {P0} + 4 <= {D0}.len() && 0 <= opcode_pos as int + {br32} <= 65535)'),
                   C('C01.branch32.advances-4', f'res.is_ok() ==> final(self).pos() == {P0} + 4'),
                   C('C01.branch32.frame', f'final(self).data() == {D0}')])
     u.close_block()
     p0, d0 = 'old(reader).pos()', 'old(reader).data()'
-    u.fn(R, 'align_to_4_byte_boundary', ret='res', canary=True,
+    u.fn(R, 'align_to_4_byte_boundary', ret='res', canary=canary, **kw,
          requires=[f'0 <= {p0} <= u64::MAX'],
          proof_before=[(r'match reader\.marker\(\)\? & 0b11', f'    proof {{ let n: u64 = {p0} as u64; assert(n & 0b11 == n % 4) by (bit_vector); }}')],
          ensures=[C('C01.ralign.aligned', 'res.is_ok() ==> final(reader).pos() % 4 == 0'),
